@@ -96,7 +96,11 @@ func (env *SpecEnv) eval(e SpecExpr) *Val {
 			sub = env.with(nil)
 			sub.subs(x.Subs)
 		}
-		return sub.evalGo(x.E)
+		v := sub.evalGo(x.E)
+		if sub != env && sub.err != nil && env.err == nil {
+			env.err = sub.err
+		}
+		return v
 	}
 	return env.fail("bad spec expression %T", e)
 }
@@ -868,6 +872,9 @@ func (env *SpecEnv) evalNamedCall(name string, x *ast.CallExpr) *Val {
 		var parts []string
 		for i := range x.Args {
 			parts = append(parts, "(seq.unit "+arg(i).S+")")
+		}
+		if len(parts) == 0 {
+			return &Val{T: types.NewSlice(types.Typ[types.Uint8]), S: "(as seq.empty (Seq Int))"}
 		}
 		if len(parts) == 1 {
 			return &Val{T: types.NewSlice(types.Typ[types.Uint8]), S: parts[0]}
